@@ -167,6 +167,8 @@ class Twin:
             return st is None or (st[0] == "sync" and st[1][0]["pc"] == "cs")
         if a[0] == "s":
             return st is None
+        if a[0] == "f":
+            return st is not None and st[0] == "start" and st[1] == "fk"
         if a[0] == "e":
             return (st is not None and st[0] == "sync" and st[1][0]["pc"] == "cs"
                     and not (len(st[1]) == 1 and t in self.outq))
@@ -207,6 +209,10 @@ class Twin:
             return
         if a[0] == "s":
             self.thr[t] = ["start", "ld", None, None, a[1]]
+            return
+        if a[0] == "f":
+            self.thr[t] = None
+            self.feat.add("failed-start")
             return
         if a[0] == "e":
             st[1][0]["pc"] = "rl2"
@@ -433,8 +439,9 @@ def parse_steps(steps):
 # how a child comes to life: fresh import + _bootstrap/run, inherited globals (fork) + at-fork hooks +
 # _bootstrap/run, late import; `-o`: its Process subclass overrides run() without super().run()
 FLAVOURS = ["run", "import", "fork", "run-o", "fork-o"]
-ONLINE_SCENARIOS = ("two-first-starts", "raising-bodies", "mix", "urwid-after-start", "late-import-then-start")
-ONLINE_QUICK = 300
+ONLINE_SCENARIOS = ("two-first-starts", "raising-bodies", "mix", "urwid-after-start", "late-import-then-start",
+                    "failing-start")
+ONLINE_QUICK = 360
 ONLINE_THOROUGH = 1200
 DECO_QUICK = 60
 DECO_THOROUGH = 1500
@@ -446,7 +453,8 @@ FSCHED_THOROUGH = 800
 MP_QUICK = [("spawn", "ctx", 0, "target", 0), ("spawn", "default", 1, "target", 0),
             ("fork", "default", 0, "run", 0), ("spawn", "default", 0, "run", 0),
             ("spawn", "default", 0, "target", 1), ("spawn", "ctx", 0, "run", 1),
-            ("fork", "default", 0, "after", 0), ("fork", "ctx", 0, "after", 0)]
+            ("fork", "default", 0, "after", 0), ("fork", "ctx", 0, "after", 0),
+            ("spawn", "default", 0, "failfirst", 0)]
 MP_ALL = ([(m, h, lz, "target", 0) for m in ("fork", "spawn", "forkserver") for h in ("default", "ctx") for lz in (0, 1)]
           + [("mixed", "ctx", 0, "target", 0), ("mixed", "ctx", 1, "target", 0)]
           + [(m, h, 0, "run", 0) for m in ("fork", "spawn", "forkserver") for h in ("default", "ctx")]
@@ -454,7 +462,8 @@ MP_ALL = ([(m, h, lz, "target", 0) for m in ("fork", "spawn", "forkserver") for 
           + [(m, "default", 0, "runsuper", 0) for m in ("fork", "spawn", "forkserver")]
           + [(m, "default", 0, "target", 1) for m in ("fork", "spawn", "forkserver")]
           + [("spawn", "ctx", 0, "run", 1)]
-          + [(m, "default", 0, "after", 0) for m in ("fork", "spawn", "forkserver")])
+          + [(m, "default", 0, "after", 0) for m in ("fork", "spawn", "forkserver")]
+          + [(m, h, 0, "failfirst", 0) for m in ("spawn", "forkserver") for h in ("default", "ctx")])
 
 
 def mp_key(method, how, lazy, style="target", pre=0):
@@ -472,6 +481,7 @@ def mp_case(cfg, scale):
 def mp_what(j, method, how, lazy, style="target", pre=0):
     sup = {"target": "children given as target=", "run": "children are Process subclasses overriding run() without super().run()",
            "runsuper": "children are Process subclasses whose run() calls super().run()",
+           "failfirst": "the first Process.start() fails (its target cannot be pickled) while the parent's threads are calling",
            "after": "an empty child first, then main thread vs. one child, then two threads — nothing races with a start"}[style]
     return (f"real multiprocessing ({method}, {'get_context().Process' if how == 'ctx' else 'multiprocessing.Process'}, "
             f"term_image imported {'inside the child function' if lazy else 'at module level'}, {sup}"
@@ -564,7 +574,7 @@ class C14(Property):
         # decorate-call-drop histories of short-lived callables
         no = ONLINE_QUICK if tier == "quick" else ONLINE_THOROUGH
         for k in range(no):
-            c = self.gen_online(rng, ONLINE_SCENARIOS[k % 5])
+            c = self.gen_online(rng, ONLINE_SCENARIOS[k % len(ONLINE_SCENARIOS)])
             if c is not None:
                 yield c
         for _ in range(DECO_QUICK if tier == "quick" else DECO_THOROUGH):
@@ -589,6 +599,13 @@ class C14(Property):
             cfg = {"first": {"0": 1}, "nproc": 1, "p_exc": 0.05, "p_start": 0.0}
             fns = ["p", rng.choice(["i", "i", "w", "f"]), rng.choice(["p", "i", "w"]), rng.choice(["p", "i"])]
             fns += ["p"] * (len(procs) - len(fns))
+        elif scen == "failing-start":
+            # the root's first Process.start() migrates the lock and then FAILS (half of the time)
+            # while other threads call synchronized functions; later starts may succeed
+            nproc = 2
+            procs = [0, 0, 0] + [rng.choice([0, 1, 2]) for _ in range(rng.choice([0, 1, 2]))]
+            cfg = {"first": {"0": 1}, "nproc": 2, "p_exc": 0.05, "p_start": 0.1, "p_fail": 0.7, "hold_fk": True, "lead": 0,
+                   "maxdepth": 1}
         elif scen == "late-import-then-start":
             # child 1 adopts the lock at import time (late import) and then starts process 2 itself
             nproc = 2
@@ -605,7 +622,8 @@ class C14(Property):
         flav = {str(c): rng.choice(FLAVOURS) for c in range(1, nproc + 1)}
         flav.update(force_flav)
         r = self.worker().call({"op": "sgen", "procs": procs, "flav": flav, "seed": rng.randrange(1 << 30),
-                                "cfg": cfg, "maxsteps": rng.choice([40, 80, 120]), "fns": fns})
+                                "cfg": cfg, "maxsteps": 120 if scen == "failing-start" else rng.choice([40, 80, 120]),
+                                "fns": fns})
         if r.get("hang"):
             self._hangs += 1
             self._worker = None
@@ -752,7 +770,7 @@ class C14(Property):
         then more probe schedules"""
         fails = []
         for k in range(600):
-            c = self.gen_online(rng, ONLINE_SCENARIOS[k % 5]) if k % 4 else self.gen_deco(rng)
+            c = self.gen_online(rng, ONLINE_SCENARIOS[k % len(ONLINE_SCENARIOS)]) if k % 4 else self.gen_deco(rng)
             if c is None:
                 continue
             f = self.oracle(c, self.impl(c))
